@@ -38,6 +38,10 @@
 
 /* ------------------------------------------------------------------ baton scheduler */
 enum { K_CF = 1, K_MF, K_YIELD, K_ALLOC, K_HZ0, K_HZ1, K_CAS, K_REL, K_END };
+/* ---- extension H (DM): schedule-point kinds of the interposed qdqueue.c (continue the enum above) ---- */
+enum { K_LFEMPTY = K_END + 1, K_LFENQ, K_LFDEQ, K_INCR, K_CASV, K_CASP, K_LOCK, K_UNLOCK };
+static __thread int dm_quiet = 0;     /* > 0 while a baton task runs inside a sub-queue operation called BY qdqueue.c */
+/* ---- end extension H (DM) ---- */
 #define MAXT 8
 static __thread int my_tid = -1;
 static sem_t        sem_thr[MAXT], sem_ctl;
@@ -63,6 +67,7 @@ static void ctl_wait(void)
 
 static void verif_sp(int kind, void *addr)
 {
+    if (my_tid >= 0 && dm_quiet) return;          /* extension H (DM): the sub-queue operation is ONE step of DqMicro */
     if (my_tid < 0) {
         if (perturb) {
             if (!prng) prng = (unsigned long long)(uintptr_t)&kind * 0x9E3779B97F4A7C15ULL + perturb;
@@ -154,7 +159,55 @@ static void *verif_cas_ptr(void **addr, void *oldv, void *newv)
     return (void *)__sync_val_compare_and_swap(addr, oldv, newv);
 }
 
+/* ---- extension H (DM): interposition of the shared accesses of qdqueue.c (mode DM).  Every wrapper first calls the baton and
+ * then performs the original operation; with no baton thread active (my_tid < 0: modes M4, DQ, DA) verif_sp returns at once.
+ * The wrapper bodies are compiled BEFORE the macros are redefined, so they use the library's own qthread_incr / qthread_cas. */
+static void *volatile dm_holds[MAXT];            /* gateway_lock currently held by baton task t (NULL = none) */
+static int   verif_dm_lfempty(qlfqueue_t *q) { verif_sp(K_LFEMPTY, q); dm_quiet++; int r = (qlfqueue_empty)(q); dm_quiet--; return r; }
+static int   verif_dm_lfenq(qlfqueue_t *q, void *e) { verif_sp(K_LFENQ, q); dm_quiet++; int r = (qlfqueue_enqueue)(q, e); dm_quiet--; return r; }
+static void *verif_dm_lfdeq(qlfqueue_t *q) { verif_sp(K_LFDEQ, q); dm_quiet++; void *r = (qlfqueue_dequeue)(q); dm_quiet--; return r; }
+static aligned_t verif_dm_incr(aligned_t *a, aligned_t v) { verif_sp(K_INCR, a); return qthread_incr(a, v); }
+static aligned_t verif_dm_cas(aligned_t *a, aligned_t o, aligned_t n) { verif_sp(K_CASV, a); return qthread_cas(a, o, n); }
+static void *verif_dm_cas_ptr(void **a, void *o, void *n) { verif_sp(K_CASP, a); return (void *)__sync_val_compare_and_swap(a, o, n); }
+static int   verif_dm_lock(const aligned_t *a)
+{
+    verif_sp(K_LOCK, (void *)a);
+    int r = (qthread_lock)(a);
+    if (my_tid >= 0) dm_holds[my_tid] = (void *)a;
+    return r;
+}
+static int   verif_dm_unlock(const aligned_t *a)
+{
+    verif_sp(K_UNLOCK, (void *)a);               /* parked here the task still HOLDS the lock */
+    if (my_tid >= 0) dm_holds[my_tid] = NULL;
+    return (qthread_unlock)(a);
+}
+#pragma push_macro("qthread_incr")
+#pragma push_macro("qthread_cas")
+#pragma push_macro("qthread_cas_ptr")
+#undef qthread_incr
+#undef qthread_cas
+#undef qthread_cas_ptr
+#define qthread_incr(A, V) verif_dm_incr((aligned_t *)(A), (aligned_t)(V))
+#define qthread_cas(A, O, N) verif_dm_cas((aligned_t *)(A), (aligned_t)(O), (aligned_t)(N))
+#define qthread_cas_ptr(A, O, N) verif_dm_cas_ptr((void **)(A), (void *)(O), (void *)(N))
+#define qthread_lock(A) verif_dm_lock(A)
+#define qthread_unlock(A) verif_dm_unlock(A)
+#define qlfqueue_empty(Q) verif_dm_lfempty(Q)
+#define qlfqueue_enqueue(Q, E) verif_dm_lfenq((Q), (E))
+#define qlfqueue_dequeue(Q) verif_dm_lfdeq(Q)
+/* ---- end extension H (DM) (the matching #undef block follows the include) ---- */
 #include "ds/qdqueue.c"               /* white-box only for the allsheps arrays (DA); not interposed on purpose */
+/* ---- extension H (DM): restore, so that the rest of the harness calls the queue functions directly ---- */
+#undef qlfqueue_dequeue
+#undef qlfqueue_enqueue
+#undef qlfqueue_empty
+#undef qthread_unlock
+#undef qthread_lock
+#pragma pop_macro("qthread_cas_ptr")
+#pragma pop_macro("qthread_cas")
+#pragma pop_macro("qthread_incr")
+/* ---- end extension H (DM) ---- */
 
 /* ------------------------------------------------------------------ script parsing */
 #define MAXOPS 4096
@@ -613,6 +666,201 @@ static void run_da(void)
     qdqueue_destroy(q);
 }
 
+/* ------------------------------------------------------------------ extension H (DM): qdqueue.c under the baton (M3)
+ * DM cap ns | <shep>: ops | <shep>: ops ... | schedule(digits, optional run-until suffixes: see run_dm)
+ *                                                                     ops: e<v> enqueue, t<there>,<v> enqueue_there, d dequeue
+ * Task k is pinned on shepherd <shep> (1..ns-1, pairwise distinct; the controller occupies shepherd 0).  One grant runs a task to
+ * its next interposed operation of qdqueue.c (or to the end of its call).  Output: the configuration line
+ *   C ns | allsheps[0] ; allsheps[1] ; ... | neighbors[0] ; neighbors[1] ; ...          (indices into Qs)
+ * then per grant   g <t> <KIND>[ <target sub-queue>] | <dump>      g <t> END i<rc>|p<value> | <dump>
+ *                  g <t> BLOCKED | <dump>   (t stands before qthread_lock on a gateway_lock held by another parked task: NOT released)
+ *                  g <t> - | <dump>         (t has finished its program)
+ * dump = per shepherd:  q <values> ; lc <idx|-> ; ai <last_ad_issued> ac <last_ad_consumed> ; h <element indices from first along next>
+ *                       ; e <inheap>:<generation>:<prev|->:<next|-> per heap element
+ * and finally      F | <stuck task ids>                                                                                          */
+typedef struct { char k; unsigned long v; unsigned there; } dm_op_t;
+static dm_op_t dm_ops[MAXT][MAXOPS];
+static int     dm_nops[MAXT];
+static volatile unsigned dm_actual[MAXT];
+
+static aligned_t dm_task(void *arg)
+{
+    int t = (int)(intptr_t)arg;
+    my_tid = t;
+    dm_quiet = 0;
+    dm_actual[t] = qthread_shep();
+    sp_kind_of[t] = 0;
+    sem_post(&sem_ctl);                          /* started */
+    while (sem_wait(&sem_thr[t]) != 0) ;
+    for (int i = 0; i < dm_nops[t]; i++) {
+        dm_op_t *o = &dm_ops[t][i];
+        switch (o->k) {
+            case 'e': { int rc = qdqueue_enqueue(dq, (void *)(uintptr_t)o->v); sprintf(res_buf[t], "i%d", rc < 0 ? -rc : rc); break; }
+            case 't': { int rc = qdqueue_enqueue_there(dq, (void *)(uintptr_t)o->v, o->there); sprintf(res_buf[t], "i%d", rc < 0 ? -rc : rc); break; }
+            case 'd': { void *p = qdqueue_dequeue(dq); sprintf(res_buf[t], "p%lu", (unsigned long)(uintptr_t)p); break; }
+        }
+        if (i == dm_nops[t] - 1) {
+            t_finished[t] = 1; sp_kind_of[t] = K_END; my_tid = -1; sem_post(&sem_ctl); sem_post(&lf_done[t]); return 0;
+        }
+        verif_sp(K_END, NULL);
+    }
+    my_tid = -1; sem_post(&lf_done[t]);
+    return 0;
+}
+
+static void dm_idx(const char *pre, void *p, void *base, size_t sz)
+{
+    if (p) printf("%s%ld", pre, (long)(((char *)p - (char *)base) / (long)sz)); else printf("%s-", pre);
+}
+static void dm_dump(void)
+{
+    for (unsigned i = 0; i < maxsheps; i++) {
+        struct qdsubqueue_s *s = &dq->Qs[i];
+        printf(" | q");
+        qlfqueue_node_t *n = s->theQ->head ? s->theQ->head->next : NULL;
+        long k = 0;
+        for (; n && k < 100000; n = n->next, k++) printf(" %lu", (unsigned long)(uintptr_t)n->value);
+        dm_idx(" ; lc ", s->last_consumed, dq->Qs, sizeof(struct qdsubqueue_s));
+        printf(" ; ai %lu ac %lu ; h", (unsigned long)s->last_ad_issued, (unsigned long)s->last_ad_consumed);
+        struct qdqueue_adheap_elem_s *e = s->ads.first;
+        for (unsigned c = 0; e && c < maxsheps + 1; e = e->next, c++) printf(" %ld", (long)(e - s->ads.heap));
+        printf(" ; e");
+        for (unsigned j = 0; j < maxsheps; j++) {
+            e = &s->ads.heap[j];
+            printf(" %d:%lu", e->inheap, (unsigned long)e->ad.generation);
+            dm_idx(":", e->prev, s->ads.heap, sizeof *e);
+            dm_idx(":", e->next, s->ads.heap, sizeof *e);
+        }
+    }
+    printf("\n");
+}
+static void dm_config(qdqueue_t *q)
+{
+    printf("C %u |", (unsigned)maxsheps);
+    for (unsigned i = 0; i < maxsheps; i++) {
+        if (i) printf(" ;");
+        for (unsigned j = 0; j + 1 < maxsheps; j++) printf(" %ld", (long)(q->Qs[i].allsheps[j] - q->Qs));
+    }
+    printf(" |");
+    for (unsigned i = 0; i < maxsheps; i++) {
+        if (i) printf(" ;");
+        for (size_t j = 0; j < q->Qs[i].nNeighbors; j++) printf(" %ld", (long)(q->Qs[i].neighbors[j] - q->Qs));
+    }
+    printf("\n");
+}
+/* index of the sub-queue the parked task's interposed operation is aimed at */
+static long dm_target(int t)
+{
+    void *a = sp_addr_of[t];
+    switch (sp_kind_of[t]) {
+        case K_LFEMPTY: case K_LFENQ: case K_LFDEQ:
+            for (unsigned i = 0; i < maxsheps; i++) if ((void *)dq->Qs[i].theQ == a) return i;
+            return -1;
+        case K_INCR: case K_CASV: case K_CASP: case K_LOCK: case K_UNLOCK:
+            if ((char *)a < (char *)dq->Qs || (char *)a >= (char *)(dq->Qs + maxsheps)) return -1;
+            return (long)(((char *)a - (char *)dq->Qs) / (long)sizeof(struct qdsubqueue_s));
+    }
+    return -1;
+}
+static const char *dm_kname(int k)
+{
+    switch (k) {
+        case K_LFEMPTY: return "LFEMPTY"; case K_LFENQ: return "LFENQ"; case K_LFDEQ: return "LFDEQ"; case K_INCR: return "INCR";
+        case K_CASV: return "CASV"; case K_CASP: return "CASP"; case K_LOCK: return "LOCK"; case K_UNLOCK: return "UNLOCK";
+        default: return "?";
+    }
+}
+/* a task standing before qthread_lock(a) must not be released while another parked task holds a: it would block inside the FEB
+ * lock and never reach a schedule point (DqMicro: dm_step = None) */
+static int dm_blocked(int t, int nt)
+{
+    if (sp_kind_of[t] != K_LOCK) return 0;
+    for (int u = 0; u < nt; u++) if (u != t && dm_holds[u] && dm_holds[u] == sp_addr_of[t]) return 1;
+    return 0;
+}
+
+static void run_dm(char *line)
+{
+    char *s = line; char *hdr = next_bar(&s);
+    char *parts[MAXT + 2]; int np = 0;
+    while (s && np < MAXT + 1) parts[np++] = next_bar(&s);
+    int cap = 0, ns = 0;
+    sscanf(hdr + 2, "%d %d", &cap, &ns);
+    int nt = np - 1;
+    unsigned sheps[MAXT]; int bad = (np < 2 || ns != (int)qthread_num_shepherds() || qlib->nworkerspershep != 1);
+    char *sched = np >= 1 ? parts[np - 1] : NULL;
+    for (int t = 0; t < nt && !bad; t++) {
+        char *e; sheps[t] = (unsigned)strtoul(parts[t], &e, 10);
+        if (*e != ':' || sheps[t] < 1 || sheps[t] >= qthread_num_shepherds()) { bad = 1; break; }
+        for (int u = 0; u < t; u++) if (sheps[u] == sheps[t]) bad = 1;
+        dm_nops[t] = 0;
+        for (char *tok = strtok(e + 1, " \n"); tok; tok = strtok(NULL, " \n")) {
+            dm_op_t *o = &dm_ops[t][dm_nops[t]];
+            o->k = tok[0]; o->v = 0; o->there = 0;
+            if (o->k == 'e') o->v = strtoul(tok + 1, NULL, 10);
+            else if (o->k == 't') { char *c; o->there = (unsigned)strtoul(tok + 1, &c, 10); o->v = (*c == ',') ? strtoul(c + 1, NULL, 10) : 0; }
+            else if (o->k != 'd') bad = 1;
+            if ((o->k == 'e' || o->k == 't') && o->v == 0) bad = 1;
+            if (o->k == 't' && o->there >= qthread_num_shepherds()) bad = 1;
+            if (dm_nops[t] < MAXOPS - 1) dm_nops[t]++;
+        }
+    }
+    if (bad) { printf("F CONFIG\n"); return; }
+    dq = qdqueue_create();
+    dm_config(dq);
+    for (int t = 0; t < nt; t++) {
+        t_finished[t] = (dm_nops[t] == 0);
+        dm_holds[t] = NULL; sp_kind_of[t] = 0; sp_addr_of[t] = NULL; dm_actual[t] = sheps[t];
+        sem_init(&lf_done[t], 0, 0);
+        if (dm_nops[t]) { qthread_fork_to(dm_task, (void *)(intptr_t)t, NULL, sheps[t]); ctl_wait(); }
+    }
+    for (int t = 0; t < nt; t++) if (dm_actual[t] != sheps[t]) { printf("F MIGRATED %d\n", t); fflush(stdout); _exit(0); }
+#define DM_GRANT(T) do { int t_ = (T); \
+        if (t_finished[t_]) { printf("g %d -", t_); } \
+        else if (dm_blocked(t_, nt)) { printf("g %d BLOCKED", t_); } \
+        else { sem_post(&sem_thr[t_]); ctl_wait(); \
+               if (sp_kind_of[t_] == K_END) printf("g %d END %s", t_, res_buf[t_]); \
+               else printf("g %d %s %ld", t_, dm_kname(sp_kind_of[t_]), dm_target(t_)); } \
+        dm_dump(); } while (0)
+    /* schedule: a digit grants that task once; a digit followed by one of . M Q D I C P L U grants it (at least once, at most 64
+     * times) until it stands at END (.) / before that kind of operation, returns from its call, finishes or is BLOCKED.  The
+     * sequence of "g <t>" lines IS the resolved digit schedule (the Python side replays exactly that sequence on the model). */
+    for (char *c = sched; c && *c; c++) if (*c >= '0' && *c < '0' + nt) {
+        int t = *c - '0', want = 0;
+        switch (c[1]) { case '.': want = K_END; break; case 'M': want = K_LFEMPTY; break; case 'Q': want = K_LFENQ; break;
+                        case 'D': want = K_LFDEQ; break; case 'I': want = K_INCR; break; case 'C': want = K_CASV; break;
+                        case 'P': want = K_CASP; break; case 'L': want = K_LOCK; break; case 'U': want = K_UNLOCK; break; }
+        if (!want) { DM_GRANT(t); continue; }
+        c++;
+        for (int n = 0; n < 64; n++) {
+            int fin = t_finished[t], blk = !fin && dm_blocked(t, nt);
+            DM_GRANT(t);
+            if (fin || blk || t_finished[t] || sp_kind_of[t] == K_END || sp_kind_of[t] == want) break;
+        }
+    }
+    int extra = 0, progress = 1;
+    while (progress && extra < cap) {
+        progress = 0;
+        for (int t = 0; t < nt; t++) if (!t_finished[t] && extra < cap) { DM_GRANT(t); extra++; progress = 1; }
+    }
+    printf("F |");
+    int stuck = 0;
+    for (int t = 0; t < nt; t++) if (!t_finished[t]) { printf(" %d", t); stuck = 1; }
+    printf("\n");
+    fflush(stdout);
+    if (stuck) _exit(0);                 /* tasks parked inside the queue code cannot be unwound */
+    for (int t = 0; t < nt; t++) if (dm_nops[t]) while (sem_wait(&lf_done[t]) != 0) ;
+    qdqueue_destroy(dq);
+}
+/* DC: the configuration line of a fresh qdqueue on this shepherd count */
+static void run_dc(void)
+{
+    qdqueue_t *q = qdqueue_create();
+    dm_config(q);
+    qdqueue_destroy(q);
+}
+/* ------------------------------------------------------------------ end extension H (DM) */
+
 /* ------------------------------------------------------------------ main */
 int main(int argc, char **argv)
 {
@@ -652,6 +900,8 @@ int main(int argc, char **argv)
         else if (!strncmp(line, "M4", 2)) run_m4(line);
         else if (!strncmp(line, "DA", 2)) run_da();
         else if (!strncmp(line, "DQ", 2)) run_dq(line);
+        else if (!strncmp(line, "DM", 2)) run_dm(line);       /* extension H (DM) */
+        else if (!strncmp(line, "DC", 2)) run_dc();           /* extension H (DM) */
         else if (line[0] == 'Q') break;
         fflush(stdout);
     }
